@@ -176,5 +176,228 @@ def gen(ctx):
     return tr
 
 
+# --------------------------------------------------------------------------- correspondence (T-corr)
+
+COORD = ["x", "y", "z", "vx", "vy", "vz"]
+
+
+def fr(x):
+    return x if isinstance(x, Fraction) else Fraction(x)
+
+
+def fstr(q):
+    q = fr(q)
+    return str(q.numerator) if q.denominator == 1 else "%d/%d" % (q.numerator, q.denominator)
+
+
+class Case:
+    """One detector call.  All numbers are Fractions that are exactly representable as float64."""
+
+    def __init__(self, times, states, normal, offset, direction, tol, ttol, ptol, maxhits, pc, cubic, refine, iters,
+                 exact, tag=""):
+        self.times, self.states, self.normal, self.offset = times, states, normal, offset
+        self.direction, self.tol, self.ttol, self.ptol, self.maxhits = direction, tol, ttol, ptol, maxhits
+        self.pc, self.cubic, self.refine, self.iters, self.exact, self.tag = pc, cubic, refine, iters, exact, tag
+
+    def line(self):
+        head = [str(self.direction or 0), fstr(self.tol), fstr(self.ttol), fstr(self.ptol),
+                str(-1 if self.maxhits is None else self.maxhits), str(self.pc[0]), str(self.pc[1]),
+                "1" if self.cubic else "0", str(self.refine), str(self.iters)]
+        nums = [fstr(v) for v in self.normal] + [fstr(self.offset), str(len(self.times))]
+        for t, x in zip(self.times, self.states):
+            nums.append(fstr(t))
+            nums += [fstr(v) for v in x]
+        return " ".join(head + nums)
+
+    def g(self):
+        return [sum(a * b for a, b in zip(x, self.normal)) - self.offset for x in self.states]
+
+    def kwargs(self):
+        return dict(normal=np.array([float(v) for v in self.normal]), offset=float(self.offset),
+                    plane_coords=(COORD[self.pc[0]], COORD[self.pc[1]]),
+                    interp_kind="cubic" if self.cubic else "linear", segment_refine=self.refine,
+                    tol_on_surface=float(self.tol), dedup_time_tol=float(self.ttol), dedup_point_tol=float(self.ptol),
+                    max_hits_per_traj=self.maxhits, newton_max_iter=self.iters, direction=self.direction)
+
+    def replay(self):
+        d = self.kwargs()
+        d["normal"] = [float(v) for v in self.normal]
+        return {"call": "_SynodicDetectionBackend().detect_on_trajectory(times, states, **kwargs)",
+                "times": [float(t) for t in self.times], "states": [[float(v) for v in x] for x in self.states],
+                "kwargs": d, "section_values": [float(v) for v in self.g()], "tag": self.tag}
+
+
+def run_real(backend, case):
+    ts = np.array([float(t) for t in case.times])
+    st = np.array([[float(v) for v in x] for x in case.states])
+    with np.errstate(all="ignore"):
+        hits = backend.detect_on_trajectory(ts, st, **case.kwargs())
+    return [(float(h.time), [float(v) for v in h.state], [float(v) for v in h.point2d]) for h in hits]
+
+
+def parse_model(line):
+    toks = line.split()
+    assert toks and toks[0] == "H", line
+    out = []
+    for tok in toks[2:]:
+        seg, on, s, tm, xs = tok.split(":")
+        out.append({"seg": int(seg), "on": on == "1", "s": Fraction(s), "time": Fraction(tm),
+                    "state": [Fraction(v) for v in xs.split(",")]})
+    assert len(out) == int(toks[1])
+    return out
+
+
+def make_states(rng, times, g, normal, offset):
+    """6-D states with normal·x − offset == g exactly (normal[lead] == 1), other coordinates small dyadics that make
+    the projected point move with time."""
+    lead = [i for i, v in enumerate(normal) if v == 1][0]
+    states = []
+    for k, (t, gv) in enumerate(zip(times, g)):
+        x = [F(0)] * 6
+        for i in range(6):
+            if i != lead:
+                x[i] = [t, F(k * k, 4), 2 * t - 1, F(k, 2) - t, F(1, 2) + k, -t][i]
+        x[lead] = gv + offset - sum(normal[i] * x[i] for i in range(6) if i != lead)
+        states.append(x)
+    return states
+
+
+NORMALS = [([F(1), F(0), F(0), F(0), F(0), F(0)], F(0)),
+           ([F(0), F(1), F(0), F(0), F(0), F(0)], F(1, 2)),
+           ([F(1), F(2), F(0), F(-1), F(0), F(1, 2)], F(3, 4)),
+           ([F(-1, 2), F(0), F(1), F(0), F(3), F(0)], F(-2))]
+PCS = [(1, 4), (0, 2), (3, 5), (1, 2)]
+
+
+def dyadic_grid(rng, N, uniform=False):
+    t = F(rng.choice([0, -3, 5, 1])) / rng.choice([1, 2, 4])
+    out = [t]
+    for _ in range(N - 1):
+        t = t + (F(1, 2) if uniform else rng.choice([F(1), F(1, 2), F(2), F(1, 4)]))
+        out.append(t)
+    return out
+
+
+def exact_cases(ctx):
+    """All sign patterns {−,0,+}^N (N up to 6 quick / 8 thorough, sampled beyond) x directions; magnitudes in {1,3}
+    (every alpha is then dyadic and the float code is exact), dyadic non-uniform grids, tolerances including 0 and a
+    tolerance (2) that makes the magnitude-1 samples on-surface although non-zero, refinements 0/1/3, dedup on/off."""
+    rng = ctx.rng
+    full_to = 8 if ctx.thorough() else 6
+    cases = []
+    for N in range(2, 9):
+        pats = list(itertools.product((-1, 0, 1), repeat=N))
+        if N > full_to:
+            pats = rng.sample(pats, 700 if N == 7 else 500)
+        for pat in pats:
+            g = [F(sg * rng.choice([1, 3])) for sg in pat]
+            times = dyadic_grid(rng, N, uniform=rng.random() < 0.3)
+            normal, offset = NORMALS[rng.randrange(len(NORMALS))]
+            states = make_states(rng, times, g, normal, offset)
+            pc = PCS[rng.randrange(len(PCS))]
+            for d in (None, 1, -1):
+                tol = rng.choice([F(1, 1024), F(1, 1024), F(0), F(2)])
+                ttol = rng.choice([F(0), F(1, 2 ** 20), F(1, 2 ** 20), F(3, 4)])
+                ptol = rng.choice([F(0), F(1, 2 ** 20), F(1, 2 ** 20), F(3, 2)])
+                mh = rng.choice([None, None, None, None, 1, 2, 0])
+                refine = rng.choice([0, 0, 1, 3])
+                cases.append(Case(times, states, normal, offset, d, tol, ttol, ptol, mh, pc, False, refine, 4, True,
+                                  tag="exact N=%d pat=%s" % (N, "".join("-0+"[s + 1] for s in pat))))
+    return cases
+
+
+def approx_cases(ctx):
+    """Random float trajectories (general magnitudes, non-dyadic quotients, refinement counts that are not powers of
+    two, cubic interpolation with 0..3 Newton updates on low-bit dyadic data)."""
+    rng = ctx.rng
+    cases = []
+    n = 1500 if ctx.thorough() else 400
+    for k in range(n):
+        N = rng.randint(2, 9)
+        cubic = (k % 2 == 0)
+        if cubic:
+            g = [F(rng.randint(-12, 12), 4) if rng.random() < 0.85 else F(0) for _ in range(N)]
+            times = dyadic_grid(rng, N, uniform=rng.random() < 0.5)
+        else:
+            g = [F(float(rng.uniform(-1, 1))) if rng.random() < 0.85 else F(0) for _ in range(N)]
+            t = F(float(rng.uniform(-1, 1)))
+            times = [t]
+            for _ in range(N - 1):
+                t = F(float(t + F(float(rng.uniform(0.05, 1.0)))))
+                times.append(t)
+        normal, offset = NORMALS[rng.randrange(2)]      # axis normals: g = x_i − c is computed without rounding issues in sign
+        states = make_states(rng, times, g, normal, offset)
+        if not cubic:
+            # make every entry a float64 value and recompute nothing: g := exact value of the float states
+            states = [[F(float(v)) for v in x] for x in states]
+        d = rng.choice([None, 1, -1])
+        refine = rng.choice([0, 1, 2, 3, 4, 6]) if not cubic else rng.choice([0, 0, 1, 3])
+        iters = rng.choice([0, 1, 2, 3]) if cubic else 4
+        cases.append(Case(times, states, normal, offset, d, F(1, 2 ** 30), F(1, 2 ** 30), F(1, 2 ** 30), None,
+                          PCS[rng.randrange(len(PCS))], cubic, refine, iters, False,
+                          tag="approx cubic=%s" % cubic))
+    return cases
+
+
+def compare(case, real, model):
+    """None if the outputs agree, else a description."""
+    if len(real) != len(model):
+        return "number of hits: code %d, model %d" % (len(real), len(model))
+    for i, (r, m) in enumerate(zip(real, model)):
+        rt, rx, rp = r
+        vals = [(F(rt), m["time"], "time")] + [(F(a), b, "state[%d]" % j) for j, (a, b) in enumerate(zip(rx, m["state"]))]
+        vals += [(F(rp[0]), m["state"][case.pc[0]], "point2d[0]"), (F(rp[1]), m["state"][case.pc[1]], "point2d[1]")]
+        for a, b, nm in vals:
+            if case.exact:
+                if a != b:
+                    return "hit %d %s: code %r, model %r (exact arithmetic case)" % (i, nm, float(a), float(b))
+            else:
+                tol = 1e-9 if case.cubic else 1e-11
+                if abs(a - b) > tol * (1 + abs(b)):
+                    return "hit %d %s: code %r, model %r" % (i, nm, float(a), float(b))
+    return None
+
+
+def correspondence(ctx, backend):
+    cases = exact_cases(ctx) + approx_cases(ctx)
+    ctx.log("correspondence: %d cases" % len(cases))
+    text = "\n".join(c.line() for c in cases) + "\n"
+    out = [l for l in ctx.lean_run("Drivers/C15.lean", text) if l.startswith(("H", "E"))]
+    ctx.log("lean driver returned %d lines" % len(out))
+    if len(out) != len(cases):
+        ctx.broken.append(("correspondence:detect", "driver returned %d lines for %d cases" % (len(out), len(cases))))
+        ctx.obligations["correspondence:detect"] = False
+        return cases
+    bad = []
+    kinds = {}
+    for c, line in zip(cases, out):
+        model = parse_model(line)
+        real = run_real(backend, c)
+        msg = compare(c, real, model)
+        nh = len(model)
+        non_on = sum(1 for h in model if not h["on"])
+        key = (c.tag, str(c.direction), c.refine, c.cubic, fstr(c.tol), fstr(c.ttol), str(c.maxhits))
+        ctx.case(key, nontrivial=nh > 0, kind="%s r=%d %s" % ("cubic" if c.cubic else "linear", c.refine, "exact" if c.exact else "approx"),
+                 sample={"case": c.replay(), "hits": [[float(h["time"])] + [float(v) for v in h["state"]] for h in model]} if len(ctx.samples) < 3 and non_on > 1 else None)
+        ctx.corr_cases += 1
+        kinds["hits=%d" % min(nh, 6)] = kinds.get("hits=%d" % min(nh, 6), 0) + 1
+        if msg:
+            bad.append((c, msg, real, model))
+    ctx.extra["correspondence_hit_count_histogram"] = kinds
+    ctx.extra["correspondence_cases"] = len(cases)
+    if bad:
+        c, msg, real, model = bad[0]
+        ctx.broken.append(("correspondence:detect", "%d of %d cases disagree; first: %s; %s" % (len(bad), len(cases), c.tag, msg)))
+        ctx.obligations["correspondence:detect"] = False
+        ctx.extra["correspondence_first_disagreement"] = {"case": c.replay(), "message": msg, "code": real,
+                                                          "model": [[float(h["time"])] + [float(v) for v in h["state"]] for h in model]}
+    else:
+        ctx.obligations["correspondence:detect"] = True
+    return cases
+
+
 def run(ctx):
     tr = gen(ctx)
+    from hiten.algorithms.poincare.synodic.backend import _SynodicDetectionBackend
+    backend = _SynodicDetectionBackend()
+    cases = correspondence(ctx, backend)
